@@ -73,6 +73,13 @@ SPECS = [
     dict(kind="fn", file="raw", scope=IMPL("RawTableInner"), fn="is_in_same_group"),
     dict(kind="let", file="raw", scope=IMPL("RawTableInner"), fn="set_ctrl", var="index2", ret="usize"),
     dict(kind="let", file="raw", scope=IMPL("RawTableInner"), fn="erase", var="index_before", ret="usize"),
+    dict(kind="let", file="raw", scope=IMPL("RawTableInner"), fn="reserve_rehash_inner", var="new_items",
+         ret=("Option", "usize"), unwrap_or_return=True),
+    dict(kind="let", file="raw", scope=IMPL("RawTableInner"), fn="reserve_rehash_inner", var="full_capacity", ret="usize"),
+    dict(kind="ifcond", file="raw", scope=IMPL("RawTableInner"), fn="reserve_rehash_inner", name="in_place_cond",
+         ret="bool", locals=[("new_items", "usize"), ("full_capacity", "usize")]),
+    dict(kind="call", file="raw", scope=IMPL("RawTableInner"), fn="reserve_rehash_inner", name="new_capacity",
+         path="usize::max", ret="usize", locals=[("new_items", "usize"), ("full_capacity", "usize")]),
     # ---- serde.rs / map.rs
     dict(kind="fn", file="serde", scope=MOD("size_hint"), fn="cautious"),
     dict(kind="let", file="map", scope=IMPL("HashMap", "Extend<(K,V)>"), fn="extend", var="reserve", ret="usize",
@@ -319,7 +326,78 @@ class Generator:
                     i = k
             i += 1
         expr_toks = unique(hits, where, f)
+        self._emit_extracted(sp, f, where, fn, expr_toks, sp["fn"] + "_" + sp["var"])
+
+    def emit_ifcond(self, sp):
+        """Extract the condition of the unique top-level `if` statement of a function body."""
+        f, where, fn = self.find_fn(sp)
+        where = where + " [top-level if condition]"
+        toks = fn.body
+        depth, hits, i = 0, [], 0
+        while i < len(toks):
+            t = toks[i]
+            if t.kind == "punct" and t.text in "([{":
+                depth += 1
+            elif t.kind == "punct" and t.text in ")]}":
+                depth -= 1
+            elif depth == 0 and t.kind == "id" and t.text == "if" and not (i > 0 and toks[i - 1].text == "else"):
+                k, d = i + 1, 0
+                while True:
+                    if k >= len(toks):
+                        raise TranslateError("%s: unterminated if" % where)
+                    tt = toks[k]
+                    if tt.kind == "punct" and tt.text == "{" and d == 0:
+                        break
+                    if tt.kind == "punct" and tt.text in "([{":
+                        d += 1
+                    elif tt.kind == "punct" and tt.text in ")]}":
+                        d -= 1
+                    k += 1
+                hits.append(toks[i + 1:k])
+                i = k - 1
+            i += 1
+        self._emit_extracted(sp, f, where, fn, unique(hits, where, f), sp["fn"] + "_" + sp["name"])
+
+    def emit_call(self, sp):
+        """Extract the unique call `<path>(...)` (e.g. `usize::max(..)`) occurring in a function body."""
+        f, where, fn = self.find_fn(sp)
+        where = where + " [call %s(..)]" % sp["path"]
+        pat = [x.text for x in tokenize(sp["path"])[:-1]]
+        toks = fn.body
+        hits = []
+        for i in range(len(toks) - len(pat)):
+            if [x.text for x in toks[i:i + len(pat)]] == pat and toks[i + len(pat)].text == "(" \
+                    and not (i > 0 and toks[i - 1].text in ("::", ".")):
+                k, d = i + len(pat), 0
+                while True:
+                    tt = toks[k]
+                    if tt.kind == "punct" and tt.text in "([{":
+                        d += 1
+                    elif tt.kind == "punct" and tt.text in ")]}":
+                        d -= 1
+                        if d == 0:
+                            break
+                    k += 1
+                    if k >= len(toks):
+                        raise TranslateError("%s: unterminated call" % where)
+                hits.append(toks[i:k + 1])
+        self._emit_extracted(sp, f, where, fn, unique(hits, where, f), sp["fn"] + "_" + sp["name"])
+
+    def _emit_extracted(self, sp, f, where, fn, expr_toks, suffix):
         e = parse_expr_toks(expr_toks, where)
+        if sp.get("unwrap_or_return"):
+            # `match <scrutinee> { Some(v) => v, None => return .. }`: emit the Option scrutinee
+            ok = e[0] == "match" and len(e[2]) == 2
+            if ok:
+                arms = {a[0][0]: a for a in e[2]}
+                some, none = arms.get("p_ts"), arms.get("p_path")
+                ok = bool(some and none) and some[1] is None and none[1] is None \
+                    and some[0][1] == ("Some",) and len(some[0][2]) == 1 and some[0][2][0][0] == "p_id" \
+                    and some[2] == ("path", (some[0][2][0][1],), None) \
+                    and none[0][1] == ("None",) and none[2][0] == "return"
+            if not ok:
+                raise TranslateError("%s: expected `match e { Some(v) => v, None => return .. }`" % where)
+            e = e[1]
         self_type = sp["scope"][1] if sp["scope"] and sp["scope"][0] == "impl" else None
         self_kind, params = parse_params(fn.params, where)
         tr = FnTranslator(self.world, f, where, self_type=self_type, self_kind=self_kind,
@@ -330,6 +408,11 @@ class Generator:
                 continue
             t = tr.norm_type(ty)
             plist.append((pat[1], tr.bind(pat[1], t, "param"), t))
+        # locals of the enclosing function that the extracted expression may mention: they become
+        # parameters of the emitted def (declared, with their Rust types, in the spec)
+        for (ln_, lt_) in sp.get("locals", ()):
+            plist = [p for p in plist if p[0] != ln_]
+            plist.append((ln_, tr.bind(ln_, lt_, "param"), lt_))
         ret_t = sp["ret"]
         tr.no_try = 1
         body = tr.tr_expr(e, ret_t)
@@ -342,7 +425,7 @@ class Generator:
         for (rn, ln, t) in plist:
             if rn in tr.params_used:
                 binders.append("(%s : %s)" % (ln, tr.lean_type(t)))
-        lname = self.lean_name(f, sp["scope"], sp["fn"] + "_" + sp["var"])
+        lname = self.lean_name(f, sp["scope"], suffix)
         self.out.append("def %s %s : %s :=\n  %s" % (lean_decl_name(lname), " ".join(binders), tr.lean_type(ret_t), body))
         self.summary.append("def " + lname)
 
